@@ -1,9 +1,173 @@
-/-
-  C20 — Hover figures are exact aggregates over the whole include tree.
-
-  Placeholder in the hover builder's tree.  The decimal-library part (`balances_exact`, owned by
-  the "balance" builder) lives in this file; the server-level part is HL/Props/C20Hover.lean,
-  which also declares audit aliases `HL.Props.C20.hover_*` for its theorems.
-  Coordinator: when merging, keep the import below in the balance builder's version.
--/
 import HL.Props.C20Hover
+import HL.Model.Balance
+import HL.Spec.BalanceSpec
+import HL.Lemmas.Dec
+import HL.Lemmas.Balance
+import HL.Lemmas.AccountBalance
+import HL.Lemmas.DecString
+import HL.Model.HoverText
+
+/-!
+  C20 "Hover figures are exact aggregates" — the arithmetic core: account balances and the
+  counters of hover.go over an arbitrary list of transactions (the list the server passes is
+  `AllTransactions()` of the resolved include tree or the current file's transactions; that it
+  holds every member file once is the loader's part of C20).
+-/
+namespace HL.Props.C20
+open HL HL.Ast HL.Balance HL.Spec.Bal
+
+theorem explicit_filterMap_eq (txs : List RTx) (acct c : Bytes) :
+    ((explicit txs).filterMap fun (a, c', q) => if a = acct ∧ c' = c then some q else none) =
+    ((explicit txs).filterMap fun (x : Bytes × Bytes × Rat) =>
+        if x.1 = acct ∧ x.2.1 = c then some x.2.2 else none) := by
+  congr 1
+
+theorem explicit_filter_length (txs : List RTx) (acct c : Bytes) :
+    explicitCount txs acct c =
+    ((explicit txs).filterMap fun (x : Bytes × Bytes × Rat) =>
+        if x.1 = acct ∧ x.2.1 = c then some x.2.2 else none).length := by
+  unfold explicitCount
+  induction explicit txs with
+  | nil => rfl
+  | cons x r ih =>
+    obtain ⟨a, c', q⟩ := x
+    rw [List.filter_cons, List.filterMap_cons]
+    by_cases h : a = acct ∧ c' = c
+    · simp only [h, and_self, decide_true, if_true, List.length_cons]
+      simp only [h] at ih
+      rw [ih]
+    · simp only [h, decide_false, Bool.false_eq_true, if_false]
+      exact ih
+
+/-- **balances_exact.**  For every list of transactions, every account and every commodity:
+    the model of `CalculateAccountBalances(FromTransactions)` holds an entry exactly when some
+    posting to that account carries an explicit amount in that commodity, and the entry's value
+    is the exact rational sum of those amounts — whatever exponents the decimals carry. -/
+theorem balances_exact (txs : List Transaction) (acct c : Bytes) :
+    ((lookup (accountBalances txs) acct c).isSome ↔ explicitCount (txs.map image) acct c > 0) ∧
+    ((lookup (accountBalances txs) acct c).map Dec.toRat).getD 0 = accountSum (txs.map image) acct c := by
+  unfold accountBalances
+  rw [foldl_flatMap_postings]
+  obtain ⟨h1, h2⟩ := foldl_addPosting_spec (txs.flatMap (·.postings)) [] acct c
+  have hl : lookup [] acct c = none := rfl
+  rw [hl] at h1 h2
+  simp only [Option.isSome_none, Bool.false_eq_true, false_or, Option.getD_none, Dec.toRat_zero, Rat.zero_add] at h1 h2
+  constructor
+  · rw [h1, explicit_filter_length, explicit_image]
+    cases expl (txs.flatMap (·.postings)) acct c with
+    | nil => simp
+    | cons _ _ => simp
+  · unfold accountSum
+    rw [explicit_filterMap_eq, explicit_image, ← h2]
+    cases lookup ((txs.flatMap (·.postings)).foldl addPosting []) acct c with
+    | none => simp [Dec.toRat_zero]
+    | some v => simp
+
+/-- Number of postings naming the account (with or without an amount): what the hover line
+    "**Postings:** N" shows. -/
+theorem postings_count_exact (txs : List Transaction) (acct : Bytes) :
+    countPostings acct txs = ((txs.flatMap (·.postings)).filter fun p => p.account.name = acct).length := by
+  unfold countPostings
+  have h : ∀ (l : List Transaction) (k : Nat),
+      l.foldl (fun n tx => tx.postings.foldl (fun n p => if p.account.name = acct then n + 1 else n) n) k =
+      k + ((l.flatMap (·.postings)).filter fun p => p.account.name = acct).length := by
+    intro l
+    induction l with
+    | nil => simp
+    | cons tx r ih =>
+      intro k
+      rw [List.foldl_cons, ih, List.flatMap_cons, List.filter_append, List.length_append]
+      have := foldl_count (fun p : Posting => decide (p.account.name = acct)) tx.postings k
+      simp only [decide_eq_true_eq] at this
+      rw [this]; omega
+  rw [h]; simp
+
+/-- number of postings to `acct` that carry an explicit amount. -/
+def explicitPostings (txs : List Transaction) (acct : Bytes) : Nat :=
+  ((txs.flatMap (·.postings)).filter fun p => p.account.name = acct && p.amount.isSome).length
+
+/-- Reading "the exact number of such postings" as "postings with an explicit amount": the hover
+    count is that number whenever no posting to the account leaves its amount out. -/
+theorem postings_count_explicit_partial (txs : List Transaction) (acct : Bytes)
+    (h : ∀ p ∈ txs.flatMap (·.postings), p.account.name = acct → p.amount.isSome) :
+    countPostings acct txs = explicitPostings txs acct := by
+  rw [postings_count_exact]
+  unfold explicitPostings
+  congr 1
+  apply List.filter_congr
+  intro p hp
+  by_cases ha : p.account.name = acct
+  · simp [ha, h p hp ha]
+  · simp [ha]
+
+def pA (acct : String) (q : Option Int) : Posting :=
+  ⟨.none, ⟨bs acct, default⟩, q.map fun c => ⟨⟨c, 0⟩, [], ⟨bs "USD", .right, default⟩, false, default⟩,
+   none, none, [], [], .none, default⟩
+def tx2 : Transaction := ⟨default, none, .none, [], [], [], [], [pA "a:b" (some 5), pA "a:b" none], [], [], default⟩
+
+/-- …and it is one more for every amount-less posting to the account (`a:b  5 USD` / `a:b`). -/
+theorem postings_count_explicit_counterexample :
+    countPostings (bs "a:b") [tx2] = 2 ∧ explicitPostings [tx2] (bs "a:b") = 1 := by
+  constructor <;> decide +kernel
+
+example : ∀ p ∈ [tx2].flatMap (·.postings), p.account.name = bs "c:d" → p.amount.isSome := by decide +kernel
+
+/-- **counts_exact.**  Payee, tag and tag-value hovers show exact counts. -/
+theorem counts_exact (txs : List Transaction) (payee name value : Bytes) :
+    countPayee payee txs = (txs.filter fun tx => tx.payee = payee || tx.description = payee).length ∧
+    countTagUsage name txs = ((allTags txs).filter fun t => t.name = name).length ∧
+    countTagValueUsage name value txs = ((allTags txs).filter fun t => t.name = name && t.value = value).length := by
+  refine ⟨?_, ?_, ?_⟩
+  · unfold countPayee
+    have := foldl_count (fun tx : Transaction => (decide (tx.payee = payee) || decide (tx.description = payee))) txs 0
+    simp only [Nat.zero_add] at this
+    rw [← this]
+  · unfold countTagUsage
+    have := foldl_count (fun t : Tag => decide (t.name = name)) (allTags txs) 0
+    simp only [Nat.zero_add, decide_eq_true_eq] at this
+    rw [this]
+  · unfold countTagValueUsage
+    have := foldl_count (fun t : Tag => (decide (t.name = name) && decide (t.value = value))) (allTags txs) 0
+    simp only [Nat.zero_add] at this
+    rw [← this]
+
+/-! ### the figures as printed -/
+
+/-- `%d` of a count reads back as that count. -/
+theorem count_printed_exact (n : Nat) : Dec.parseNat (Dec.natDigits n) = some n := by
+  rw [Num.natDigits_eq, Num.parseNat_digits _ (Num.digitsOfNat_ne_nil n), Num.natOf_digitsOfNat]
+
+/-- **account_hover_figures.**  The figure the account hover prints for a commodity
+    (`Decimal.String()` of the entry of the balance map) denotes exactly the sum of all amounts
+    explicitly posted to the account in that commodity. -/
+theorem account_hover_figures (txs : List Transaction) (acct c : Bytes) (v : Dec)
+    (h : lookup (accountBalances txs) acct c = some v) (hexp : Dec.int32Min ≤ v.exp) :
+    (Dec.ofString (Dec.toString v)).map Dec.toRat = some (accountSum (txs.map image) acct c) := by
+  rw [Num.toString_roundtrip v hexp]
+  have := (balances_exact txs acct c).2
+  rw [h] at this
+  simpa using this
+
+/-- **amount_hover_exact.**  Hovering an amount shows `Decimal.String()` of its quantity (and of
+    its cost), which denotes exactly the quantity parsed. -/
+theorem amount_hover_exact (a : Amount) (cost : Option Cost) (hexp : Dec.int32Min ≤ a.quantity.exp) :
+    (∃ rest, HoverText.amountHover a cost =
+        bs "**Amount:** " ++ Dec.toString a.quantity ++ bs " " ++ a.commodity.symbol ++ rest) ∧
+    (Dec.ofString (Dec.toString a.quantity)).map Dec.toRat = some (Dec.toRat a.quantity) ∧
+    (∀ k, cost = some k → Dec.int32Min ≤ k.amount.quantity.exp →
+      (∃ pre, HoverText.amountHover a cost = pre ++ Dec.toString k.amount.quantity ++ bs " " ++ k.amount.commodity.symbol) ∧
+      (Dec.ofString (Dec.toString k.amount.quantity)).map Dec.toRat = some (Dec.toRat k.amount.quantity)) := by
+  refine ⟨⟨_, rfl⟩, Num.toString_roundtrip _ hexp, ?_⟩
+  intro k hk hke
+  subst hk
+  refine ⟨?_, Num.toString_roundtrip _ hke⟩
+  unfold HoverText.amountHover
+  cases ht : k.isTotal with
+  | true =>
+    exact ⟨bs "**Amount:** " ++ Dec.toString a.quantity ++ bs " " ++ a.commodity.symbol ++ bs "\n\n**Total cost:** @@ ",
+      by simp only [ht, if_true, List.append_assoc]⟩
+  | false =>
+    exact ⟨bs "**Amount:** " ++ Dec.toString a.quantity ++ bs " " ++ a.commodity.symbol ++ bs "\n\n**Unit cost:** @ ",
+      by simp only [ht, Bool.false_eq_true, if_false, List.append_assoc]⟩
+
+end HL.Props.C20
